@@ -59,7 +59,9 @@ impl SegmentSizes {
     }
 
     pub fn on_payload_delivered(&mut self, payload_size: usize) {
-        let payload_size = payload_size.min(u16::MAX as usize) as u16;
+        // The size may come from a payload sent by the peer, which may be larger than what our
+        // link MTU allows. It must not raise the ceiling.
+        let payload_size = payload_size.min(self.max_ss as usize) as u16;
         self.min_ss = self.min_ss.max(payload_size);
         self.max_ss = self.max_ss.max(self.min_ss);
     }
